@@ -22,7 +22,7 @@ ANCHORS = ["decaylanguage.dec.dec:get_definitions", "decaylanguage.dec.dec:get_a
            "decaylanguage.dec.dec:get_lineshape_settings", "decaylanguage.dec.dec:get_lineshapePW_definitions", "decaylanguage.dec.dec:get_global_photos_flag"]
 WORKERS = {"quick": 4, "thorough": 16}
 WTESTS = {"groups": ['parse'], "tests": ['tests/dec'], "counts": ["C01.parse."]}
-REQUIRED = {**{f"kind:{k}": 20 for k in KINDS}, **{f"repeated:{k}": 8 for k in KINDS if k not in ("LSPW", "LS", "BW", "CM", "INC", "Photos")},
+REQUIRED = {"queries-asked-twice-with-returned-values-edited": 50, **{f"kind:{k}": 20 for k in KINDS}, **{f"repeated:{k}": 8 for k in KINDS if k not in ("LSPW", "LS", "BW", "CM", "INC", "Photos")},
             "repeated-lineshape-setting(must-raise)": 10, "lineshape:several-kinds-one-particle": 10, "photos:absent": 10, "photos:one": 10, "photos:several-last-differs": 5,
             "photos:three-or-more": 5, "particle:width-default-real": 10, "particle:width-default-via-alias": 10, "particle:alias-name-reused-across-files": 5, "particle:explicit-width": 10,
             "jetset:int": 10, "jetset:float": 10, "jetset:signed": 5, "pythia:number": 10, "pythia:word": 10, "statements-between-blocks": 20,
@@ -179,8 +179,15 @@ def check(ctx, stmts, text, wit, workload, um=(), files=None, hits=()):
             for mech, msg in snapshot.compare_globals(res2[0], exp):
                 ctx.violate("multi-file:" + mech, msg, w2)
     ctx.mon("C07.queries_match_statement_order_semantics")
-    for mech, msg in snapshot.compare_globals(p, exp):
+    first = snapshot.compare_globals(p, exp)
+    for mech, msg in first:
         ctx.violate(mech, msg, wit)
+    if not first and ctx.rng.random() < 0.5:
+        # every query asked a second time on the same object, the values returned the first time edited in between
+        ctx.hit("queries-asked-twice-with-returned-values-edited")
+        snapshot.edit_returned_values(p)
+        for mech, msg in snapshot.compare_globals(p, exp):
+            ctx.violate("asked-again:" + mech, msg, wit)
     if files is None:
         for mech, msg in snapshot.compare_tables(p, exp):
             ctx.violate("with-globals:" + mech, msg, wit)
